@@ -216,6 +216,7 @@ fn main() {
             let (mut viol, mut panics, mut events) = (0usize, 0usize, 0usize);
             let mut nontrivial = HashSet::new();
             let mut known_seen: std::collections::BTreeMap<&'static str, usize> = Default::default();
+            let corpus = sim::corpus(&prop);
             for i in 0..n {
                 let mut r = master.fork();
                 if let Some(o) = only {
@@ -223,7 +224,7 @@ fn main() {
                         continue;
                     }
                 }
-                let c = sim::gen_sim_case(&prop, &mut r);
+                let c = if i < corpus.len() { corpus[i].clone() } else { sim::gen_sim_case(&prop, &mut r) };
                 let run = sim::run_sim(&c);
                 let toks = sim::enc_sim_case(&c, &run);
                 writeln!(cases, "{}", enc::hex_line(None, &toks)).unwrap();
